@@ -15,83 +15,14 @@ import (
 	"verif/harness/internal/ev"
 	"verif/harness/internal/gen"
 	"verif/harness/internal/hx"
+	"verif/harness/internal/ref/rules"
 	"verif/harness/internal/ref/txref"
 )
 
 const ruleC09 = "constructive generator: well-formed transactions (1-4 inputs, 1-4 outputs, valid reference-made signatures, optionally some null signatures) followed by 0-2 rule-breaking mutations (no inputs/outputs, signature count, duplicate input, duplicate output, type, zero-coin output, output sums reaching 2^64, Length +-1, inner hash, null/corrupted signature with r/s/recid edge values), each optionally followed by recomputing the public header fields so that deeper rules are reached; byte strings: encodings with byte edits, patched length prefixes, truncations, extensions, random bytes; oracle: independent predicate wellFormed(txn, signed) using big-int sums, the reference encoder and the textbook curve must equal Verify()/VerifyUnsigned()==nil; decode ok => re-encoding is identical; non-trivial = a mutated transaction / a mutated or random byte string that still decodes; distinct by encoding"
 
-// wellFormed is the rule set of the property statement, written independently.
-func wellFormed(t *coin.Transaction, signed bool) (bool, string) {
-	if len(t.In) == 0 {
-		return false, "no inputs"
-	}
-	if len(t.Out) == 0 {
-		return false, "no outputs"
-	}
-	if len(t.Sigs) != len(t.In) {
-		return false, "sig count"
-	}
-	if len(t.In) > 65535 || len(t.Out) > 65535 {
-		return false, "too many"
-	}
-	seen := map[cipher.SHA256]bool{}
-	for _, in := range t.In {
-		if seen[in] {
-			return false, "duplicate input"
-		}
-		seen[in] = true
-	}
-	if t.Type != 0 {
-		return false, "type"
-	}
-	sum := new(big.Int)
-	type okey struct {
-		a     cipher.Address
-		c, h uint64
-	}
-	outs := map[okey]bool{}
-	dupOut := false
-	for _, o := range t.Out {
-		if o.Coins == 0 {
-			return false, "zero coin output"
-		}
-		sum.Add(sum, bu(o.Coins))
-		k := okey{o.Address, o.Coins, o.Hours}
-		if outs[k] {
-			dupOut = true
-		}
-		outs[k] = true
-	}
-	if sum.Cmp(two64) >= 0 {
-		return false, "output coins overflow"
-	}
-	if uint64(t.Length) != txref.TxnSize(t) {
-		return false, "length"
-	}
-	if dupOut {
-		return false, "duplicate output"
-	}
-	if txref.InnerHash(t) != t.InnerHash {
-		return false, "inner hash"
-	}
-	nulls := 0
-	for i, sig := range t.Sigs {
-		if sig == (cipher.Sig{}) {
-			nulls++
-			if signed {
-				return false, "null signature"
-			}
-			continue
-		}
-		if !sigValid(sig, txref.SigHash(t.InnerHash, t.In[i])) {
-			return false, "invalid signature"
-		}
-	}
-	if !signed && nulls == 0 {
-		return false, "unsigned check needs a null signature"
-	}
-	return true, ""
-}
+// wellFormed is the rule set of the property statement, written independently (harness/internal/ref/rules).
+func wellFormed(t *coin.Transaction, signed bool) (bool, string) { return rules.WellFormed(t, signed) }
 
 type txnDraft struct {
 	txn   coin.Transaction
